@@ -109,6 +109,8 @@ class Result:
                 print("    detail: %s" % (str(v["detail"])[:1500],))
             print("VIOLATION property=%s replay=%s" % (self.prop, rp))
             rc = 1
+        self.new_count = len(seen_keys)
+        self.known_count = len(known_hit)
         seen_u = set()
         for u in self.undecided_list:
             k = (u["rule"], u["what"])
